@@ -171,7 +171,7 @@ class Recorder:
 
 
 _VOLATILE = [
-    (re.compile(r'"time": [0-9.e+]+, '), ''),
+    (re.compile(r'"time": [0-9.e+]+, ?'), ''),
     (re.compile(r'"host" : "[^"]*", '), ''),
     (re.compile(r'"pid" : \d+, '), ''),
     (re.compile(r'"ppid" : \d+, '), ''),
@@ -200,8 +200,28 @@ def error_enum(e: BaseException) -> list:
     return ['exception', type(e).__name__]
 
 
-def render(obj: Any, n: Any, neg: Any) -> dict:
-    """Canonical rendering of a decoded message: its content and what the API would be told."""
+ENCODERS = ['json6', 'json6c', 'json6g', 'json4', 'text6', 'text4', 'coll']
+
+
+def _encoders() -> dict:
+    """Every API encoder a process can be configured with (reactor/api/processes.py, configuration/command.py)."""
+    from exabgp.reactor.api.response import Response
+    from exabgp.version import json_v4, text_v4
+
+    j6 = Response.JSON('6.0.0')
+    j6c = Response.JSON('6.0.0')
+    j6c.compact = True
+    j6g = Response.JSON('6.0.0')
+    j6g.generic_attribute_format = True
+    return {'json6': j6, 'json6c': j6c, 'json6g': j6g, 'json4': Response.V4.JSON(json_v4), 'text6': Response.Text('6.0.0'), 'text4': Response.V4.Text(text_v4)}
+
+
+def render(obj: Any, n: Any, neg: Any, order: int = 0) -> dict:
+    """Canonical rendering of a decoded message: its content and what every API encoder would write.
+    `order` permutes the order in which the renderings are asked for (a memoised rendering that depends
+    on who asked first shows up as a difference with the fresh twin, which is rendered in order 0)."""
+    import random as _random
+
     from exabgp.bgp.message.keepalive import KeepAlive
     from exabgp.bgp.message.notification import Notification
     from exabgp.bgp.message.open import Open
@@ -209,10 +229,8 @@ def render(obj: Any, n: Any, neg: Any) -> dict:
     from exabgp.bgp.message.update import Update
     from exabgp.bgp.message.update.collection import UpdateCollection
     from exabgp.bgp.message.update.eor import EOR
-    from exabgp.reactor.api.response import Response
 
-    J = Response.JSON('6.0.0')
-    T = Response.Text('6.0.0')
+    enc = _encoders()
     out: dict = {'class': type(obj).__name__}
 
     def attrs_of(coll: Any) -> list:
@@ -222,35 +240,52 @@ def render(obj: Any, n: Any, neg: Any) -> dict:
             rows.append([int(code), int(_safe(lambda: a.ID)) if isinstance(_safe(lambda: a.ID), int) else str(_safe(lambda: a.ID)), type(a).__name__, _safe(lambda: str(a)), _safe(lambda: bytes(a.pack_attribute(neg)).hex())])
         return rows
 
+    todo: list = []  # (key, thunk)
     if isinstance(obj, (Update, UpdateCollection, EOR)):
         data = obj.data if isinstance(obj, Update) else obj
         out['eor'] = bool(getattr(data, 'IS_EOR', False))
-        if isinstance(data, EOR):
-            out['nlris'] = [_safe(lambda x=x: x.extensive()) for x in data.nlris]
-        else:
-            out['announces'] = [[_safe(lambda r=r: r.nlri.extensive()), _safe(lambda r=r: str(r.nexthop)), _safe(lambda r=r: bytes(r.nlri.pack_nlri(neg)).hex())] for r in data.announces]
-            out['withdraws'] = [[_safe(lambda x=x: x.extensive()), _safe(lambda x=x: bytes(x.pack_nlri(neg)).hex())] for x in data.withdraws]
-        out['attributes'] = attrs_of(data.attributes)
-        out['json'] = _strip(_safe(lambda: J.update(n, 'receive', data, b'', b'', neg)))
-        out['text'] = _safe(lambda: T.update(n, 'receive', data, b'', b'', neg))
+
+        def content() -> None:
+            if isinstance(data, EOR):
+                out['nlris'] = [_safe(lambda x=x: x.extensive()) for x in data.nlris]
+            else:
+                out['announces'] = [[_safe(lambda r=r: r.nlri.extensive()), _safe(lambda r=r: str(r.nexthop)), _safe(lambda r=r: bytes(r.nlri.pack_nlri(neg)).hex())] for r in data.announces]
+                out['withdraws'] = [[_safe(lambda x=x: x.extensive()), _safe(lambda x=x: bytes(x.pack_nlri(neg)).hex())] for x in data.withdraws]
+            out['attributes'] = attrs_of(data.attributes)
+
+        def coll() -> None:
+            # the methods of the (possibly shared) collection themselves, each with every argument
+            c = data.attributes
+            out['coll'] = [_safe(lambda: c.json()), _safe(lambda: c.json(include_nexthop=True)), _safe(lambda: c.json(generic=True)),
+                           _safe(lambda: str(c)), _safe(lambda: bytes(c.index()).hex()), _safe(lambda: c.json())]  # fmt: skip
+
+        todo.append(('content', content))
+        for k, e in enc.items():
+            todo.append((k, lambda k=k, e=e: out.__setitem__(k, _strip(_safe(lambda: e.update(n, 'receive', data, b'', b'', neg))))))
+        # in the canonical order the collection's own methods come last: in the application the first to render
+        # a decoded UPDATE is an API encoder
+        todo.append(('coll', coll))
     elif isinstance(obj, Open):
-        out['str'] = _safe(lambda: str(obj))
-        out['caps'] = [[int(k), type(v).__name__, _safe(lambda v=v: int(v.ID)), _safe(lambda v=v: v.json())] for k, v in obj.capabilities.items()]
-        out['json'] = _strip(_safe(lambda: J.open(n, 'receive', obj, b'', b'', neg)))
-        out['text'] = _safe(lambda: T.open(n, 'receive', obj, b'', b'', neg))
+        todo.append(('content', lambda: out.update({'str': _safe(lambda: str(obj)), 'caps': [[int(k), type(v).__name__, _safe(lambda v=v: int(v.ID)), _safe(lambda v=v: v.json())] for k, v in obj.capabilities.items()]})))
+        for k, e in enc.items():
+            todo.append((k, lambda k=k, e=e: out.__setitem__(k, _strip(_safe(lambda: e.open(n, 'receive', obj, b'', b'', neg))))))
     elif isinstance(obj, Notification):
-        out['str'] = _safe(lambda: str(obj))
-        out['json'] = _strip(_safe(lambda: J.notification(n, 'receive', obj, b'', b'', neg)))
-        out['text'] = _safe(lambda: T.notification(n, 'receive', obj, b'', b'', neg))
+        todo.append(('content', lambda: out.__setitem__('str', _safe(lambda: str(obj)))))
+        for k, e in enc.items():
+            todo.append((k, lambda k=k, e=e: out.__setitem__(k, _strip(_safe(lambda: e.notification(n, 'receive', obj, b'', b'', neg))))))
     elif isinstance(obj, RouteRefresh):
-        out['str'] = _safe(lambda: str(obj))
-        out['json'] = _strip(_safe(lambda: J.refresh(n, 'receive', obj, b'', b'', neg)))
-        out['text'] = _safe(lambda: T.refresh(n, 'receive', obj, b'', b'', neg))
+        todo.append(('content', lambda: out.__setitem__('str', _safe(lambda: str(obj)))))
+        for k, e in enc.items():
+            todo.append((k, lambda k=k, e=e: out.__setitem__(k, _strip(_safe(lambda: e.refresh(n, 'receive', obj, b'', b'', neg))))))
     elif isinstance(obj, KeepAlive):
-        out['json'] = _strip(_safe(lambda: J.keepalive(n, 'receive', b'', b'', neg)))
-        out['text'] = _safe(lambda: T.keepalive(n, 'receive', b'', b'', neg))
+        for k, e in enc.items():
+            todo.append((k, lambda k=k, e=e: out.__setitem__(k, _strip(_safe(lambda: e.keepalive(n, 'receive', b'', b'', neg))))))
     else:
         out['str'] = _safe(lambda: str(obj))
+    if order:
+        _random.Random(order).shuffle(todo)
+    for _, thunk in todo:
+        thunk()
     return out
 
 
@@ -284,7 +319,7 @@ def run_job(job: dict) -> dict:
                 obj = UpdateCollection.unpack_message(body, neg)
             else:
                 obj = Message.unpack(st['t'], body, neg)
-            r = render(obj, n, neg)
+            r = render(obj, n, neg, int(st.get('ord', 0)))
             objs.append((obj, n, neg))
         except Exception as e:  # noqa: BLE001  (whatever escapes is the result, as an enum)
             r = {'class': 'error', 'error': error_enum(e)}
